@@ -25,7 +25,7 @@ EXPLANATION = (
     "skip/stride/atom_indices/chunk dependence.")
 NOT_DECIDED = ["equality of the values read (run-time)", "the XDR offset arithmetic inside C", "efficient-striding seek path of xtc/trr beyond its structure"]
 ASSUMPTIONS = ["read_next_timestep / read_xtc / read_trr consume exactly one frame per successful call"]
-FLOORS = {"C02-R1": 30, "C02-R2": 8, "C02-R3": 3, "C02-R4": 20, "C02-R5": 15, "C02-R6": 8, "C02-R7": 8, "C02-R8": 19}
+FLOORS = {"C02-R1": 30, "C02-R2": 8, "C02-R3": 3, "C02-R4": 20, "C02-R5": 15, "C02-R6": 8, "C02-R7": 8, "C02-R8": 27}
 
 LOADERS = {  # ext -> class key
     ".xtc": "xtc", ".trr": "trr", ".dcd": "dcd", ".dtr": "dtr", ".h5": "h5", ".nc": "nc", ".mdcrd": "mdcrd", ".xyz": "xyz",
@@ -150,6 +150,7 @@ def check(ctx):
     _r8_text_readers(ctx)
     _r9_whole_file_loaders(ctx)
     _r10_xdr_readers(ctx)
+    _r11_array_store_readers(ctx)
 
 
 # ---------------------------------------------------------------------------------------------
@@ -1017,3 +1018,96 @@ def _r10_xdr_readers(ctx):
             else:
                 ctx.decide(not why, "C02-R3", fn, rel, q, desc, "%d sequences" % n_seq,
                            "; ".join(why[:3]) + ": iterload(chunk, stride, skip) / repeated read() return frames that slicing the whole file does not, and need not terminate")
+
+
+# ---------------------------------------------------------------------------------------------
+def _r11_array_store_readers(ctx):
+    """HDF5TrajectoryFile.read / NetCDFTrajectoryFile.read (and seek / tell) evaluated on model files of 7 frames (sa/stores.py, sa/h5model.py) that the
+    class's own write() filled from symbolic frames: sequences of read(n, stride, atom_indices) return the frames, atoms, time and cell rows of the
+    definition and leave the cursor at the end of the window consumed; seek(k) makes the next read start at frame k."""
+    from .. import stores as S, h5model as H
+    from ..tensym import TenSym, Ten, Raised, Obj
+    from ..pysym import Unsupported as PUnsupported
+    NF, NA = 7, 4
+    seqs = [
+        ("strided reads continue where the last one stopped", [("read", dict(n_frames=2, stride=2)), ("read", dict(n_frames=1)), ("read", dict(stride=3)), ("read", dict())]),
+        ("n_frames counts frames returned", [("read", dict(n_frames=3, stride=3)), ("read", dict())]),
+        ("atom selection of strided frames", [("read", dict(stride=2, atom_indices=[2, 0]))]),
+        ("seek, then read", [("seek", 5), ("read", dict()), ("seek", 1), ("read", dict(n_frames=2, stride=2)), ("tell", None)]),
+    ]
+    for key in ("h5", "nc"):
+        rel, cls = F.rel_cls(key)
+        rfn = F.method(ctx, key, "read")
+        q = cls + ".read"
+        for title, seq in seqs:
+            desc = "%s: %s" % (title, ", ".join("%s(%s)" % (m_, ", ".join("%s=%s" % kv for kv in a_.items()) if isinstance(a_, dict) else ("" if a_ is None else a_)) for m_, a_ in seq))
+            try:
+                arr = H.arrays(NF, NA)
+                if key == "h5":
+                    w = H.h5_file(ctx, "w", n_atoms=NA)
+                    _, exc = H.call(ctx, w, "write", **arr)
+                    me = H.h5_file(ctx, "r", n_atoms=NA, nodes=w._nodes, first_write=False)
+                    me.mode = "r"
+                else:
+                    w = S.netcdf_file(ctx, "w")
+                    S.run_method(ctx, key, w, "write", **arr)
+                    exc = None
+                    me = S.netcdf_file(ctx, "r", n_atoms=NA, variables=w._handle.variables)
+                if exc:
+                    ctx.undecided("C02-R8", rfn, rel, q, desc, "the model file could not be written: %s" % exc[:80])
+                    continue
+
+                def call(method, **kw):
+                    if key == "h5":
+                        r_, e_ = H.call(ctx, me, method, **kw)
+                        if e_:
+                            raise Raised(e_, e_)
+                        return r_
+                    return S.run_method(ctx, key, me, method, **kw)
+                P, why = 0, []
+                for m_, a_ in seq:
+                    if m_ == "seek":
+                        call("seek", offset=a_)
+                        P = a_
+                        continue
+                    if m_ == "tell":
+                        t_ = ctx_pyval(call("tell"))
+                        if t_ != P:
+                            why.append("tell() is %s after the cursor has reached frame %d" % (t_, P))
+                        continue
+                    n_, s_ = a_.get("n_frames"), a_.get("stride") or 1
+                    want = [f_ for f_ in range(P, NF, s_)]
+                    if n_ is not None:
+                        want = want[:n_]
+                    sel = a_.get("atom_indices")
+                    atoms = sel if sel is not None else list(range(NA))
+                    got = call("read", **a_)
+                    if key == "h5":
+                        fields = {f_: getattr(got, f_, None) for f_ in ("coordinates", "time", "cell_lengths", "cell_angles")} if isinstance(got, Obj) else {}
+                        empty = isinstance(got, list) and not got
+                    else:
+                        fields = dict(zip(("coordinates", "time", "cell_lengths", "cell_angles"), got)) if isinstance(got, tuple) else {}
+                        empty = isinstance(got, tuple) and isinstance(got[0], Ten) and len(got[0].data) == 0
+                    if not want:
+                        if not empty:
+                            why.append("a read at the end of the file returns %s" % (getattr(fields.get("coordinates"), "shape", got),))
+                    else:
+                        x = fields.get("coordinates")
+                        exp = [arr["coordinates"].data[(f_ * NA + at_) * 3 + k_] for f_ in want for at_ in atoms for k_ in range(3)]
+                        if not (isinstance(x, Ten) and x.shape == (len(want), len(atoms), 3) and all(_same(p_, q_) for p_, q_ in zip(x.data, exp))):
+                            first = [repr(x.data[i_ * len(atoms) * 3]).split("[")[1].split(",")[0] for i_ in range(x.shape[0])] if isinstance(x, Ten) and x.ndim == 3 and x.shape[1:] == (len(atoms), 3) else getattr(x, "shape", x)
+                            why.append("read(%s) at frame %d returns frames %s, the definition is %s%s" % (", ".join("%s=%s" % kv for kv in a_.items()), P, first, want, "" if sel is None else " of atoms %s" % sel))
+                        for f_, width in (("time", 1), ("cell_lengths", 3), ("cell_angles", 3)):
+                            v = fields.get(f_)
+                            expf = [arr[f_].data[fr_ * width + k_] for fr_ in want for k_ in range(width)]
+                            if not (isinstance(v, Ten) and v.shape[0] == len(want) and all(_same(p_, q_) for p_, q_ in zip(v.data, expf))):
+                                why.append("the %s rows returned are not those of frames %s" % (f_, want))
+                    P = min(NF, P + (n_ * s_ if n_ is not None else NF))
+                    if me._frame_index != P:
+                        why.append("the cursor is %s after the read, the window consumed ends at %d" % (me._frame_index, P))
+                        P = me._frame_index if isinstance(me._frame_index, int) else P
+                ctx.decide(not why, "C02-R8", rfn, rel, q, desc, "", "; ".join(why[:2]))
+            except Raised as e:
+                ctx.violated("C02-R8", rfn, rel, q, desc, "refused: %s" % (e.exc or e))
+            except PUnsupported as e:
+                ctx.undecided("C02-R8", rfn, rel, q, desc, "not evaluable: %s" % e)
